@@ -257,6 +257,123 @@ def make_emitter_harness(n: int):
     return harness
 
 
+# --------------------------------------------------------------------------- instrument text layouts (.i2b .P00 .dfr .dta)
+class _Sentinels:
+    """printed numbers are not modelled digit by digit: every number is written as a distinct sentinel numeral (exactly representable, so the
+    C-level float() returns it bit for bit), the real line parser runs on the file, and where its numbers enter the table each sentinel
+    (or its negation) is replaced by the symbolic real it stands for.  A number that was never written is a violation."""
+
+    def __init__(self, eng):
+        self.eng, self.table = eng, {}
+
+    def text(self, value, style: int, comma: bool) -> str:
+        if self.eng.symbolic:
+            x = 1024.0 + 0.25 * (len(self.table) + 1)
+            self.table[x] = value
+        else:
+            x = float(value)
+        t = (repr(x), "%.10e" % x, "%.10E" % x)[style] if self.eng.symbolic else repr(x)
+        return t.replace(".", ",") if comma else t
+
+    def back(self, x):
+        if not self.eng.symbolic:
+            return x
+        if isinstance(x, float) and x in self.table:
+            return self.table[x]
+        if isinstance(x, float) and -x in self.table:
+            return -self.table[-x]
+        self.eng.fail("layout:only numbers that were written reach the table", "%r" % (x,))
+        raise PathAbort("a number that was not written")
+
+
+def _layout_lines(fmt, pts, num, extra):
+    """the documented layouts, after the sample files of the repository (tests/data.*); `num(v)` prints a number, `extra()` a filler number"""
+    n = len(pts)
+    if fmt == "i2b":
+        # four lines of free metadata, an empty line, the number of points, then 'f re im' separated by single blanks
+        return ["Some metadata", "can be stored", "here in the first", "few lines", "", str(n)] + [
+            "%s %s %s" % (num(f), num(z.real), num(z.imag)) for f, z in pts]
+    if fmt == "p00":
+        # free header, the column header starting with f/Hz, the number of points, rows of six tab-separated columns; -Z'' is stored
+        return ["1-Header", "2-Date", "3-Description", "4-t =  736.4 s", " f/Hz       \t Z'/Ohm     \t -Z''/Ohm   \t time/s    \t Edc/V     \t Idc/A     \t", " %d " % n] + [
+            " %s\t %s\t %s\t %s\t %s\t %s\t" % (num(f), num(z.real), num(-z.imag), extra(), extra(), extra()) for f, z in pts]
+    if fmt == "dfr":
+        # VERSIONx.y, the number of points, one more line, then nine lines per point: f, Z', -Z'', six others
+        out = ["VERSION8.0", " %d" % n, " 1"]
+        for f, z in pts:
+            out += [" " + num(f), " " + num(z.real), " " + num(-z.imag)] + [" " + extra() for _ in range(6)]
+        return out
+    if fmt in ("dta", "dta.drift"):
+        drift = fmt == "dta.drift"
+        out = ["EXPLAIN", "TAG\tEISPOT", "DRIFTCOR\tSELECTOR\t%d\t&Drift Correction" % (1 if drift else 0), "FRAMEWORKVERSION\tLABEL\t7.9.0\tFramework Version", "ZCURVE\tTABLE"]
+        if drift:
+            out += ["\tPt\tTime\tFreq\tZreal\tZimag\tZsig\tZmod\tZphz\tZrealDrCor\tZimagDrCor\tIdc\tVdc\tIERange", "\t#\ts\tHz\tohm\tohm\tV\tohm\t°\tohm\tohm\tA\tV\t#"]
+        else:
+            out += ["\tPt\tTime\tFreq\tZreal\tZimag\tZsig\tZmod\tZphz\tIdc\tVdc\tIERange", "\t#\ts\tHz\tohm\tohm\tV\tohm\t°\tA\tV\t#"]
+        for i, pt in enumerate(pts):
+            f, z = pt[0], pt[1]
+            if drift:
+                zc = pt[2]
+                row = [str(i), extra(), num(f), num(z.real), num(z.imag), extra(), extra(), extra(), num(zc.real), num(zc.imag), extra(), extra(), "8"]
+            else:
+                row = [str(i), extra(), num(f), num(z.real), num(z.imag), extra(), extra(), extra(), extra(), extra(), "8"]
+            out.append("\t" + "\t".join(row))
+        return out
+    raise KeyError(fmt)
+
+
+def make_layout_harness(fmt: str, max_len: int):
+    def harness(eng):
+        import os, shutil, tempfile
+        import pyimpspec.data.data_set as ds
+        import pyimpspec.data.formats as formats
+        import pandas
+        eng.div_zero_policy = "assume"
+        sweep = gen_sweeps(eng, 1, max_len)[0]
+        drift = fmt == "dta.drift"
+        if drift:
+            sweep = [(f, z, eng.complex("Zc%d" % i, npy=False)) for i, (f, z) in enumerate(sweep)]
+        comma = eng.choice(2, "decimal_comma") == 1 and fmt != "i2b"
+        style = eng.choice(3, "numeral_style") if eng.symbolic else 0
+        sen = _Sentinels(eng)
+        filler = [0]
+
+        def extra():
+            filler[0] += 1
+            t = repr(7.0 + 0.125 * filler[0])          # filler columns: numbers that must never reach the table
+            return t.replace(".", ",") if comma else t
+        lines = _layout_lines(fmt, sweep, lambda v: sen.text(v, style, comma), extra)
+        trailing = eng.choice(2, "trailing_blank_line")
+
+        class LayoutDF(FakeDF):
+            @classmethod
+            def from_dict(cls, data):
+                return cls({k: [sen.back(x) for x in v] for k, v in data.items()})
+
+        tmp = tempfile.mkdtemp(prefix="c06_")
+        path = os.path.join(tmp, "spectrum." + {"i2b": "i2b", "p00": "P00", "dfr": "dfr", "dta": "dta", "dta.drift": "dta"}[fmt])
+        saved = pandas.DataFrame
+        try:
+            with open(path, "w", encoding="latin1") as fp:
+                fp.write("\n".join(lines) + ("\n\n" if trailing else "\n"))
+            parser = {"i2b": formats.parse_i2b, "p00": formats.parse_p00, "dfr": formats.parse_dfr, "dta": formats.parse_dta, "dta.drift": formats.parse_dta}[fmt]
+            pandas.DataFrame = LayoutDF
+            ok, res = call(parser, path)
+        finally:
+            pandas.DataFrame = saved
+            shutil.rmtree(tmp, ignore_errors=True)
+        eng.check(ok, "layout:a file in the documented layout is parsed", lambda: "%s: %s" % (type(res).__name__, res))
+        if ok and drift:
+            eng.check(len(res) == 2, "layout:drift-corrected and uncorrected spectra are both returned")
+            if len(res) == 2:
+                check_sets(eng, res[:1], [[(f, zc) for f, z, zc in sweep]], "layout")
+                check_sets(eng, res[1:], [[(f, z) for f, z, zc in sweep]], "layout")
+        elif ok:
+            check_sets(eng, res, [sweep], "layout")
+        eng.reached("layout")
+    return harness
+
+
 def obligations(tier: str):
     from sx.runner import Obligation
     import pyimpspec.data.data_set as ds
@@ -277,6 +394,17 @@ def obligations(tier: str):
                               functions=funcs, stubs=stubs, expect_reach=["table"], max_paths=1000000, mode="fresh" if polar else "incremental"))
     obs.append(Obligation("emitter", make_emitter_harness(2 if tier == "quick" else 3), bounds="to_dataframe of %d symbolic points -> dataframe_to_data_sets" % (2 if tier == "quick" else 3),
                           functions=funcs, stubs=stubs, expect_reach=["emitter"], mode="fresh"))
+    import pyimpspec.data.formats.i2b as f_i2b, pyimpspec.data.formats.p00 as f_p00, pyimpspec.data.formats.dfr as f_dfr, pyimpspec.data.formats.dta as f_dta
+    import pyimpspec.data.formats.helpers as f_h
+    for fmt, fn in (("i2b", f_i2b.parse_i2b), ("p00", f_p00.parse_p00), ("dfr", f_dfr.parse_dfr), ("dta", f_dta.parse_dta), ("dta.drift", f_dta.parse_dta)):
+        ml = 2 if tier == "quick" else 3
+        obs.append(Obligation("layout." + fmt, make_layout_harness(fmt, ml),
+                              bounds="one sweep of 1..%d points, ascending or descending, all values symbolic; decimal point or decimal comma (not .i2b), three numeral "
+                                     "styles (plain, e-notation, E-notation), with or without a trailing empty line; layout after the repository's sample file" % (ml + 1),
+                              functions=[fn, f_h._parse_string_as_float, ds.dataframe_to_data_sets, ds._detect_columns, ds._extract_data, ds._split_sweeps],
+                              stubs=stubs[:1] + ["sentinel numerals: each number is printed as a distinct exactly-representable numeral, the real line parser reads the real "
+                                                 "file, and where its lists enter the table each sentinel (or its negation) becomes the symbolic real it stands for"],
+                              expect_reach=["layout", "layout:impedances as written, with the documented sign"], max_paths=1000000))
     for o in obs:
         o.replay = o.harness
     return obs
@@ -288,7 +416,7 @@ EXPLANATION = (
 )
 ASSUMPTIONS = ["headers are a documented alias plus a unit suffix from a fixed list (the documented detection contract is prefix matching)",
                "text cells are decimal-comma numerals: float(text.replace(',', '.')) is the number written (contract of the C-level conversion)", "a sweep of a multi-sweep file has at least two points"]
-OUTSIDE = ["the text layer: pandas.read_csv/to_csv, separator sniffing, decimal commas", "the instrument layouts .mpt .i2b .P00 .dfr .dta .z (file I/O and C parsers)",
+OUTSIDE = ["the text layer: pandas.read_csv/to_csv, separator sniffing, decimal commas", "the instrument layouts .mpt and .z (pandas.read_csv); for .i2b .P00 .dfr .dta the digits of a numeral (sentinel numerals stand for the numbers) and layouts other than the sample files\'",
            "the table printed by the CLI 'parse' command (format_text)"]
 
 
